@@ -157,8 +157,8 @@ def run_index(ctx: core.Ctx, prop: str, p_malformed: float, only: list | None = 
                                                                           'splits': len(splits)}
 
     # Lean side
-    out = core.run_driver(lines)
-    for (ci, what, pystr), lean in zip(expect, out):
+    out = core.try_driver(lines, res, 'Amisc.activate')
+    for (ci, what, pystr), lean in zip(expect, out or []):
         meta, hist = cases[ci] if ci < len(cases) else (None, None)
         if isinstance(what, tuple) and what[0] == 'look':
             _, c, comp, combo, got, h = what
